@@ -43,13 +43,17 @@ Canonical == st = "case" =>
     /\ (var = CanonVar => b = B)
     /\ Len(b) >= Len(B)
 
-\* C06: no strict prefix of an encoding decodes; it always underflows
-PrefixFree == st = "case" =>
-  \A k \in 0..(Len(B) - 1) :
-    LET r == Dec(c.s, SubSeq(B, 1, k)) IN ~r.ok /\ r.err = "underflow" /\ r.pos <= k
-
 EmitVariants == {CanonVar, [expl |-> 1, unk |-> <<[tag |-> 7, data |-> <<9>>]>>],
                  [expl |-> 2, unk |-> <<[tag |-> 2, data |-> <<1, 2, 3>>], [tag |-> 200, data |-> <<255>>]>>]}
+\* C06: no strict prefix of an encoding decodes; it always underflows
+PrefixFree == st = "case" =>
+  /\ \A k \in 0..(Len(B) - 1) :
+       LET r == Dec(c.s, SubSeq(B, 1, k)) IN ~r.ok /\ r.err = "underflow" /\ r.pos <= k
+  \* also for the conforming variants (a forward-compatible peer's message cut short)
+  /\ \A var \in (IF c.s.flex THEN EmitVariants ELSE {}) :
+       LET b == EncStructV(c.s, c.v, var) IN
+       \A k \in 0..(Len(b) - 1) : LET r == Dec(c.s, SubSeq(b, 1, k)) IN ~r.ok /\ r.err = "underflow"
+
 EmitInv ==
   (Emit /\ st = "case") => \A var \in (IF c.s.flex THEN EmitVariants ELSE {CanonVar}) :
             PrintT(ToJson([s |-> c.s, v |-> c.v, var |-> var, b |-> EncStructV(c.s, c.v, var)]))
